@@ -26,6 +26,7 @@ CBMC_CHECKS = ["--bounds-check", "--pointer-check", "--pointer-overflow-check",
 # conversion/shift checks are off by default per job (GmSSL relies on wrapping conversions);
 # a job turns them on with checks=+conversion,+shift
 DEFAULT_CHECKS = ["--bounds-check", "--pointer-check", "--pointer-overflow-check", "--div-by-zero-check"]
+# (cbmc 6.x additionally enables --signed-overflow-check and --undefined-shift-check by default; a job opts out with checks=-signed)
 
 STANDING_ASSUMPTIONS = [
     "CBMC 6.11 C semantics, goto-cc front end, and the SAT/SMT back end used are sound",
@@ -172,12 +173,30 @@ def cbmc_cmd(job, gb, trace=False, prop=None):
         flag = {"conversion": "--conversion-check", "shift": "--undefined-shift-check",
                 "signed": "--signed-overflow-check", "unsigned": "--unsigned-overflow-check"}[c.lstrip("+-")]
         if c.startswith("-"):
-            checks = [x for x in checks if x != flag]
+            # cbmc 6 turns signed-overflow and undefined-shift checks on by default
+            checks = [x for x in checks if x != flag] + [flag.replace("--", "--no-", 1)]
         else:
             checks.append(flag)
     cmd = ["cbmc", gb] + checks + ["--object-bits", job.objbits, "--json-ui"]
     if job.unwindset:
-        cmd += ["--unwindset", job.unwindset, "--unwinding-assertions"]
+        # DFCC renames an enforced function f to f_wrapped_for_contract_checking; loop ids follow.
+        # "f.*:K" applies K to every loop of f (ids enumerated with cbmc --show-loops).
+        us = []
+        loops = None
+        for item in job.unwindset.split(","):
+            f, rest = item.split(".", 1)
+            if f in job.enforce:
+                f = f + "_wrapped_for_contract_checking"
+            if rest.startswith("*:"):
+                if loops is None:
+                    p = subprocess.run(["cbmc", "--show-loops", gb], stdout=subprocess.PIPE, stderr=subprocess.DEVNULL)
+                    loops = re.findall(r"^Loop (\S+):", p.stdout.decode("utf-8", "replace"), re.M)
+                for l in loops:
+                    if l.rsplit(".", 1)[0] == f:
+                        us.append(l + ":" + rest[2:])
+            else:
+                us.append(f + "." + rest)
+        cmd += ["--unwindset", ",".join(us), "--unwinding-assertions"]
     if job.unwind:
         cmd += ["--unwind", job.unwind, "--unwinding-assertions"]
     if job.solver in ("z3", "cvc5"):
@@ -335,7 +354,9 @@ def run_job(job, tier, keep=False, want_trace=False):
         if unexpected_nobody:
             res["reason"] = "bodyless callee(s) not declared trusted: %s" % ",".join(unexpected_nobody)
             return res
-        if undec:
+        # CBMC reports obligations that lie behind a failed one on every path as UNKNOWN: with a FAILURE present they
+        # are a consequence of it, not a tool limit; without one they make the job undecided
+        if undec and not failed:
             res["reason"] = "undecided obligations: " + "; ".join(r["property"] for r in undec[:5])
             return res
         if failed:
